@@ -128,9 +128,10 @@ def pcid(chk):
     fn_ = TLB + 'flush_pcid'
     CMD = TLB + 'InvPcidCommand'
     lay = [l for l in chk.facts['layouts'] if l['tys'] == TLB + 'InvpcidDescriptor']
-    ok = bool(lay) and lay[0]['size'] == 16 and {f['name']: (f['off'], f['size']) for f in lay[0]['fields']} == {'pcid': (0, 8), 'address': (8, 8)}
-    chk.ob('invpcid', 'InvpcidDescriptor = {pcid @0, address @8}, 16 bytes', ok, 'layout %r' % (lay and lay[0]['fields'],))
-    fi = {f['name']: i for i, f in enumerate(lay[0]['fields'])} if lay else {'pcid': 0, 'address': 1}
+    # the 16-byte INVPCID descriptor: PCID in the quadword at byte 0, linear address in the quadword at byte 8 (field names are private)
+    ok = bool(lay) and lay[0]['size'] == 16 and sorted((f['off'], f['size']) for f in lay[0]['fields']) == [(0, 8), (8, 8)]
+    chk.ob('invpcid', 'InvpcidDescriptor = two quadwords (PCID @0, address @8), 16 bytes', ok, 'layout %r' % (lay and lay[0]['fields'],))
+    fi = {('pcid' if f['off'] == 0 else 'address'): i for i, f in enumerate(lay[0]['fields'])} if ok else {'pcid': 0, 'address': 1}
     va = I.sym_value(adt('addr::VirtAddr'), 'a')
     pc = I.sym_value(adt(TLB + 'Pcid'), 'pc')
     vs = I.enum_variants(adt(CMD))
@@ -155,36 +156,56 @@ def pcid(chk):
                ok, detail, fn_site(I, fn_))
 
 
+def decode_invlpgb(e):
+    """the request an `invlpgb` asm event hands to the CPU (AMD APM vol. 3, INVLPGB): rax[0] = address valid, [1] = PCID valid, [2] = ASID valid,
+    [3] = include global, [4] = final translation only, [5] = include nested, [12..] = virtual address; ecx[15:0] = page count, ecx[31] = 2 MiB
+    stride; edx[15:0] = ASID, edx[27:16] = PCID"""
+    if SI.insns(e[1]) != ['invlpgb'] or len(e[2]) != 3:
+        return None
+    regs = {x['reg'].split('(')[-1].strip(')'): x['v'] for x in e[2] if x['k'] == 'in'}
+    if set(regs) != {'ax', 'cx', 'dx'} or regs['ax'].w != 64 or regs['cx'].w != 32 or regs['dx'].w != 32:
+        return None
+    ax, cx, dx = regs['ax'].bits, regs['cx'].bits, regs['dx'].bits
+    return {'va_valid': ax[0], 'pcid_valid': ax[1], 'asid_valid': ax[2], 'g': ax[3], 'f': ax[4], 'n': ax[5], 'rax_rsvd': tuple(ax[6:12]), 'va': BV(64, [0] * 12 + list(ax[12:64])),
+            'count': BV(16, list(cx[0:16])), 'ecx_rsvd': tuple(cx[16:31]), 'stride_2m': cx[31], 'asid': BV(16, list(dx[0:16])), 'pcid': BV(12, list(dx[16:28])), 'edx_rsvd': tuple(dx[28:32])}
+
+
+def request_carries(I, st, r, b, has_pc, has_as):
+    """the decoded request carries the builder's PCID / ASID / option fields and nothing else"""
+    pc = inner(b.fields[2].fields[0]) if has_pc else None
+    asid = b.fields[3].fields[0] if has_as else None
+    ok = r['pcid_valid'] == (1 if has_pc else 0) and r['asid_valid'] == (1 if has_as else 0)
+    ok = ok and same(I.resub(st, r['pcid']), BV(12, list(I.resub(st, pc).bits[:12])) if has_pc else BV.const(12, 0))
+    ok = ok and same(I.resub(st, r['asid']), I.resub(st, asid) if has_as else BV.const(16, 0))
+    ok = ok and all(same(BV(1, [r[k]]), I.resub(st, b.fields[i])) for k, i in (('g', 4), ('f', 5), ('n', 6)))
+    ok = ok and all(x == 0 for x in r['rax_rsvd'] + r['ecx_rsvd'] + r['edx_rsvd'])
+    return ok
+
+
 def broadcast(chk):
+    """the request without an address, for every PCID / ASID shape and symbolic options: driven through the public builder (the private
+    encoder function is inlined, whatever its name and parameter order)"""
     I = chk.I
-    fn_ = TLB + 'flush_broadcast'
     for size in ('Size4KiB', 'Size2MiB'):
         S = size_ty(size)
-        sb = SIZES[size]
-        pg = I.sym_value(adt(PG, S), 'va')
-        pc = I.sym_value(adt(TLB + 'Pcid'), 'pc')
-        for has_va in (0, 1):
-            for has_pc in (0, 1):
-                for has_as in (0, 1):
-                    args = [some(Struct('tuple', [pg, BV.sym(16, 'cnt')])) if has_va else none(), some(pc) if has_pc else none(), some(BV.sym(16, 'asid')) if has_as else none(),
-                            BV.sym(1, 'g'), BV.sym(1, 'f'), BV.sym(1, 'n')]
-                    outs = I.run(fn_, args, State(), {'S': S})
-                    chk.count('function-instances')
-                    ok = len(outs) == 1 and outs[0].kind == 'ret'
-                    detail = 'paths %r' % (outs,)
-                    if ok:
-                        asms = [e for e in outs[0].st.events if e[0] == 'asm']
-                        ok = len(asms) == 1 and SI.insns(asms[0][1]) == ['invlpgb'] and len(asms[0][2]) == 3
-                        if ok:
-                            regs = {x['reg'].split('(')[-1].strip(')'): x['v'] for x in asms[0][2] if x['k'] == 'in'}
-                            pb = inner(pg).bits
-                            want_rax = [has_va, has_pc, has_as, lit('g', 0), lit('f', 0), lit('n', 0)] + [0] * 6 + (list(pb[12:64]) if has_va else [0] * 52)
-                            want_ecx = (sl('cnt', 0, 16) if has_va else [0] * 16) + [0] * 15 + [(1 if size == 'Size2MiB' else 0) if has_va else 0]
-                            want_edx = (sl('asid', 0, 16) if has_as else [0] * 16) + (sl('pc', 0, 12) if has_pc else [0] * 12) + [0] * 4
-                            ok = set(regs) == {'ax', 'cx', 'dx'} and same(regs['ax'], BV(64, want_rax)) and same(regs['cx'], BV(32, want_ecx)) and same(regs['dx'], BV(32, want_edx))
-                            detail = 'rax %r ecx %r edx %r' % (regs.get('ax'), regs.get('cx'), regs.get('dx'))
-                    chk.ob('invlpgb', 'flush_broadcast<%s>(va %s, pcid %s, asid %s): one `invlpgb` with the architectural rax/ecx/edx encoding' % (size, 'Some' if has_va else 'None', 'Some' if has_pc else 'None',
-                           'Some' if has_as else 'None'), ok, detail, fn_site(I, fn_), sample=detail if has_va and has_pc and has_as and size == 'Size2MiB' else None)
+        for has_pc in (0, 1):
+            for has_as in (0, 1):
+                st = State()
+                b = mk_builder(I, st)
+                b = Struct(b.name, [b.fields[0], none(), some(I.sym_value(adt(TLB + 'Pcid'), 'pc')) if has_pc else none(), some(BV.sym(16, 'asid')) if has_as else none(), b.fields[4], b.fields[5], b.fields[6]])
+                ref = arg_obj(st, 'self', b)
+                outs = I.run(B + 'flush', [ref], st, {'S': S})
+                chk.count('function-instances')
+                ok = len(outs) == 1 and outs[0].kind == 'ret'
+                detail = 'paths %r' % (outs,)
+                if ok:
+                    asms = [e for e in outs[0].st.events if e[0] == 'asm']
+                    r = decode_invlpgb(asms[0]) if len(asms) == 1 else None
+                    ok = r is not None and r['va_valid'] == 0 and eval_value(r['va'], {}) == 0 and eval_value(r['count'], {}) == 0 and r['stride_2m'] == 0 and \
+                        request_carries(I, outs[0].st, r, b, has_pc, has_as)
+                    detail = 'request %r' % (r,)
+                chk.ob('invlpgb', 'flush<%s>() without a range (pcid %s, asid %s): one `invlpgb` without address, carrying the builder\'s PCID/ASID/options in the architectural encoding' %
+                       (size, 'Some' if has_pc else 'None', 'Some' if has_as else 'None'), ok, detail, fn_site(I, B + 'flush'))
 
 
 B = TLB + "InvlpgbFlushBuilder::<'a, S>::"
@@ -273,27 +294,50 @@ def builder(chk):
     chk.ob('invlpgb', 'builder.pages stores Some(range) and copies every other field', ok, 'paths %r' % (outs,), fn_site(I, B + 'pages'))
 
 
+def page_step_helpers(I, flush_fn):
+    """the crate functions `flush` uses to measure and advance its page range, found through the call graph and their signatures
+    ((&Page, &Page) -> (usize, Option<usize>) and (Page, usize) -> Option<Page>), not by name"""
+    from ..mirwalk import callees
+    seen, todo = set(), [flush_fn]
+    dist, fwd = set(), set()
+    while todo:
+        n = todo.pop()
+        if n in seen or n not in I.fn:
+            continue
+        seen.add(n)
+        for bi, c, target, loc in callees(I.fn[n]):
+            h = I.fn.get(target)
+            if h is None or target in seen:
+                continue
+            tys = h['locals']
+            ret = tys[0]
+            args = [tys[i + 1] for i in range(h['argc'])]
+
+            def is_page(t):
+                t = t.get('to') if t.get('k') == 'ref' else t
+                return (t or {}).get('name') == PG
+            if h['argc'] == 2 and all(is_page(x) for x in args) and ret.get('k') == 'tuple' and len(ret.get('elems', [])) == 2:
+                dist.add(target)
+                continue
+            if h['argc'] == 2 and is_page(args[0]) and args[1].get('k') == 'uint' and ret.get('name') == 'core::option::Option' and ret.get('args') and is_page(ret['args'][0]):
+                fwd.add(target)
+                continue
+            if 'instructions::tlb' in target or 'structures::paging::page' in target:
+                todo.append(target)
+    return dist, fwd
+
+
 def flush_loop(chk):
     I = chk.I
-    PGI = 'structures::paging::page::Page::<S>::'
-    fb = TLB + 'flush_broadcast'
     for size in ('Size4KiB', 'Size2MiB'):
         S = size_ty(size)
         sb = SIZES[size]
-        # ---- no range: one request without an address, carrying the builder's fields
-        st = State()
-        b = mk_builder(I, st)
-        b = Struct(b.name, [b.fields[0], none(), some(I.sym_value(adt(TLB + 'Pcid'), 'pc')), some(BV.sym(16, 'asid')), b.fields[4], b.fields[5], b.fields[6]])
-        ref = arg_obj(st, 'self', b)
+        dist_fns, fwd_fns = page_step_helpers(I, B + 'flush')
+        chk.ob('invlpgb', 'flush<%s>: the range is measured and advanced through the page stepping functions' % size, bool(dist_fns) and bool(fwd_fns),
+               'distance functions %r, forward functions %r' % (sorted(dist_fns), sorted(fwd_fns)), fn_site(I, B + 'flush'), nontrivial=False)
         saved = set(I.opaque_fns)
-        I.opaque_fns |= {fb, PGI + 'steps_between_impl', PGI + 'forward_checked_impl'}
+        I.opaque_fns |= dist_fns | fwd_fns
         try:
-            outs = I.run(B + 'flush', [ref], st, {'S': S})
-            ok = len(outs) == 1 and outs[0].kind == 'ret'
-            if ok:
-                calls = [e for e in outs[0].st.events if e[0] == 'call']
-                ok = len(calls) == 1 and calls[0][1] == fb and calls[0][2][0].vname == 'None' and all(same(x, y) for x, y in zip(calls[0][2][1:], b.fields[2:]))
-            chk.ob('invlpgb', 'flush<%s> without a range issues exactly one request without an address carrying the builder\'s PCID/ASID/options' % size, ok, 'paths %r' % (outs,), fn_site(I, B + 'flush'))
             # ---- with a range: structure of one loop iteration
             st = State()
             b = mk_builder(I, st)
@@ -317,48 +361,49 @@ def flush_loop(chk):
             if not heads:
                 why.add('no loop header on a loop path')
                 continue
-            ev = [e for e in o.st.events[heads[-1]:] if e[0] in ('call', 'minmax', 'branch')]
-            reqs = [e for e in ev if e[0] == 'call' and e[1] == fb]
+            ev = [e for e in o.st.events[heads[-1]:] if e[0] in ('call', 'minmax', 'branch', 'asm')]
+            reqs = [e for e in ev if e[0] == 'asm']
             if len(reqs) != 1:
                 why.add('%d requests in one iteration' % len(reqs))
                 continue
             req = reqs[0]
-            a = req[2]
-            okf = a[0].vname == 'Some' and all(same(x, y) for x, y in zip(a[1:], b.fields[2:]))
-            va, cnt = a[0].fields[0].fields if okf else (None, None)
+            r = decode_invlpgb(req)
+            if r is None:
+                why.add('the asm block of the iteration is not an invlpgb request')
+                continue
+            okf = r['va_valid'] == 1 and request_carries(I, o.st, r, b, 1, 1) and r['stride_2m'] == (1 if size == 'Size2MiB' else 0)
+            va, cnt = r['va'], r['count']
             # the address is the loop's current start page (a widened loop variable)
-            startsym = {bb[1] for bb in inner(va).bits if isinstance(bb, tuple) and bb[0] == 'v'} if okf else set()
-            okf = okf and len(startsym) == 1 and next(iter(startsym)).startswith('loop')
+            startsym = {bb[1] for bb in va.bits if isinstance(bb, tuple) and bb[0] == 'v'} if okf else set()
+            okf = okf and len(startsym) == 1 and next(iter(startsym)).startswith('loop') and all(x == 0 for x in va.bits[:sb])
             if not okf:
-                why.add('request arguments are not (current start, count, builder fields): %r' % (a,))
+                why.add('the request is not (current start, count, builder fields, stride of this page size): %r' % (r,))
                 continue
             before = ev[:ev.index(req)]
             mins = [e for e in before if e[0] == 'minmax' and e[1] == 'min']
             # last min: (u16 count, processor maximum) and its result is the count sent
             cap = BV.sym(16, 'cap')
-            okc = bool(mins) and (mins[-1][4] is cnt or same(mins[-1][4], cnt)) and \
+            okc = bool(mins) and (mins[-1][4] is cnt or same(I.resub(o.st, mins[-1][4]), I.resub(o.st, cnt))) and \
                 ((same(mins[-1][3], cap) and isinstance(mins[-1][2], BV) and mins[-1][2].w == 16) or (same(mins[-1][2], cap) and isinstance(mins[-1][3], BV) and mins[-1][3].w == 16))
             if not okc:
                 why.add('the count sent is not min(u16 count, invlpgb_count_max): %r' % (mins[-1:],))
             # the u16 count is the conversion of the remaining distance (or 0xffff when it does not fit)
-            sb_calls = [e for e in before if e[0] == 'call' and e[1].endswith('steps_between_impl')]
+            sb_calls = [e for e in before if e[0] == 'call' and e[1] in dist_fns]
             if not sb_calls:
-                why.add('no steps_between_impl call')
+                why.add('the remaining distance is not measured inside the iteration')
                 continue
-            first = sb_calls[0]
-            okd = isinstance(first[2][0], Ref) and isinstance(first[2][1], Ref)
             # gap clamp: when the start is below the upper half, a second distance (to 0xffff_8000_0000_0000) is taken and min-ed
             lower = [e for e in before if e[0] == 'branch' and isinstance(e[1], tuple) and e[1][0] == 'p' and e[1][1] in ('ult', 'ule')]
             in_lower = None
             for e in lower:
                 from .c07 import canon_rel
-                r = canon_rel(e[1])
-                const_side = [x for x in (r[1], r[2]) if all(bb in (0, 1) for bb in x)]
+                rr = canon_rel(e[1])
+                const_side = [x for x in (rr[1], rr[2]) if all(bb in (0, 1) for bb in x)]
                 if const_side and sum(bb << i for i, bb in enumerate(const_side[0])) == 0xffff800000000000:
                     # which way: start < second_half_start ?
-                    start_first = not all(bb in (0, 1) for bb in r[1])
+                    start_first = not all(bb in (0, 1) for bb in rr[1])
                     truth = e[2]
-                    in_lower = (start_first and r[0] == '<' and truth == 1) or ((not start_first) and r[0] == '<=' and truth == 0)
+                    in_lower = (start_first and rr[0] == '<' and truth == 1) or ((not start_first) and rr[0] == '<=' and truth == 0)
             if in_lower is None:
                 why.add('no comparison of the start with the first page of the upper half')
             elif in_lower:
@@ -368,8 +413,9 @@ def flush_loop(chk):
             # advance by max(count, 1)
             after = ev[ev.index(req):]
             maxs = [e for e in after if e[0] == 'minmax' and e[1] == 'max']
-            fw = [e for e in after if e[0] == 'call' and e[1].endswith('forward_checked_impl')]
-            oka = len(maxs) == 1 and len(fw) == 1 and (same(maxs[0][2], cnt) or maxs[0][2] is cnt) and eval_value(maxs[0][3], {}) == 1 and same(inner(fw[0][2][0]), inner(va))
+            fw = [e for e in after if e[0] == 'call' and e[1] in fwd_fns]
+            oka = len(maxs) == 1 and len(fw) == 1 and (maxs[0][2] is cnt or same(I.resub(o.st, maxs[0][2]), I.resub(o.st, cnt))) and eval_value(maxs[0][3], {}) == 1 and \
+                same(I.resub(o.st, inner(fw[0][2][0])), I.resub(o.st, va))
             if oka:
                 stp = fw[0][2][1]
                 r16 = maxs[0][4]
@@ -378,7 +424,7 @@ def flush_loop(chk):
                 why.add('the range does not advance by max(count, 1) pages from the current start')
         # exits: only when the range is empty
         for o in rets:
-            if [e for e in o.st.events if e[0] == 'call' and e[1] == fb]:
+            if [e for e in o.st.events if e[0] == 'asm']:
                 why.add('a request is issued on the exit path')
         chk.ob('invlpgb', 'flush<%s> with a range: each iteration sends (current start, min(u16(remaining), max)) - clamped to the upper-half boundary while below it - and advances by max(count, 1)' % size,
                good and not why and all(o.kind == 'panic' for o in other), '; '.join(sorted(why)) or '%d iteration paths, %d exit paths' % (len(loops), len(rets)), fn_site(I, B + 'flush'))
